@@ -6,9 +6,10 @@ import contracts.plugin as P
 import contracts.compute as CP
 import contracts.processor as PR
 import contracts.standins_pipeline as B
+import contracts.postoffice as PO
 
 PROVED = [CP.do_compute_1, CP.do_compute_2, P.fix_output_chunk, P.fix_output_other, CH.chunk_split, CH.split_array,
-          CH.continuity_check, PR.tmp_init]
+          CH.continuity_check, PR.tmp_init, PO.spy_save_chunk, PO.spy_receive, PO.spy_close, PO.ack_msg_produced]
 
 PROPERTY = Property(
     "C01", "proof",
@@ -24,7 +25,9 @@ PROPERTY = Property(
                 "hands the computation exactly the rows of time-aligned inputs and declares the result for exactly that interval; "
                 "_fix_output wraps a result into a chunk of the declared type, range and dtype or refuses it; continuity_check lets only "
                 "gap-free, overlap-free chunk sequences through to the user; ThreadedMailboxProcessor wires lazy mode, drivers and "
-                "capacities as specified.  End to end (bounded): for a graph with row-wise, filtering, same-kind merging, multi-output, "
+                "capacities as specified; in the single-thread processor PostOffice._ack_msg_produced gives a produced message the next "
+                "number of its topic, caches it under that number and hands it to EVERY spy of the topic, and SaverSpy saves every chunk "
+                "the rechunker hands out exactly once under consecutive numbers and flushes before it closes the saver.  End to end (bounded): for a graph with row-wise, filtering, same-kind merging, multi-output, "
                 "overlap-window and exhaust plugins the rows of get_iter equal the whole-run computation and the chunks tile the run, over "
                 "the enumerated source chunkings (empty and zero-duration chunks included), both processors, 1..2 workers, lazy / eager, "
                 "capacities 2..4, rechunk on save and stored subsets.",
